@@ -1,10 +1,12 @@
 """Source of truth for MANIFEST.json (tools/gen_manifest.py renders it)."""
 
 TRUSTED = (
-    " Trusted base: ttsa's own CFG builder (finally/with cloned per exit kind) and may-raise oracle, "
-    "its class table / C3 MRO / CHA call resolution, Python's try/finally semantics as modelled, and the "
-    "frozen exception tables named in the rule sources. Out-of-repo code (unittest, fixtures, Twisted) is "
-    "trusted to behave as documented; only its class/attribute tables are read."
+    " Trusted base: ttsa's own abstract interpreter (ttsa.absint / effects / objects / generators: Python's evaluation order, "
+    "exceptions, try/finally, closures, generators, properties and the C3 MRO as modelled there), its class table and call "
+    "resolution, and the stated model of each scenario's environment (what user code, tests, foreign results, streams, clocks, "
+    "matchers and fixtures do). Out-of-repo code is not followed, except unittest.TestResult -- the base class testtools' results "
+    "keep their state in -- which is read in the installed standard library's own source; Twisted, fixtures and the rest are "
+    "modelled as documented."
 )
 
 NOTES = (
@@ -51,196 +53,102 @@ CHECKS["C13"] = {
 }
 
 CHECKS["C18"] = {
-    "technique": "CFG typestate counter + writer/reader table agreement + control-dependence",
+    "technique": 'abstract interpretation of the code as written over objects built by their real constructors (ttsa.objects: instances, heap, closures, properties, lazy generators), driven by scenario tables; rules read ordered call logs -- StreamResultRouter driven through histories (ttsa.rules.streamobjects)',
     "text": (
-        "Static rules for StreamResultRouter and StreamToQueue.route_code: a forward-call counter explored over the "
-        "CFG of status() shows exactly one sink receives every event on every path, chosen in the order route-prefix "
-        "rule, test-id rule, fallback; the separator literal and strip length of the consuming rule are checked "
-        "against the writer's prefixing (inverse operations, empty remainder to None); only route_code is rewritten, "
-        "only for a consuming rule; startTestRun/stopTestRun iterate one sink list, add_rule registers iff "
-        "do_start_stop_run and the mid-run start is control-dependent on both flags; the policy table is exact and "
-        "unknown policies raise before any state change. These are per-call invariants that hold for all rule sets "
-        "and histories."
+        "Each event reaches exactly one sink (route-prefix rule, then test-id rule, then fallback; only the first segment selects; no destination is an error), also after rules were added or replaced mid-stream; the sink sees every field unchanged and the route code without exactly its first segment under a consuming rule (None when nothing is left); StreamToQueue's prefixing and a consuming rule are inverse; startTestRun / stopTestRun reach exactly the registered sinks once per run over two runs, including a sink that joined mid-run; unknown policies are refused before any state change."
     ),
-    "note": "Concrete rule sets/events as values are not enumerated; the decided clauses are structural." + TRUSTED,
+    "note": (
+        'One genuine defect was found and repaired (fix 5c368c2: a mid-run rule without do_start_stop_run was started and never stopped).' + TRUSTED
+    ),
 }
 
 CHECKS["C11"] = {
-    "technique": "local alias/mutation analysis + CFG call counter + schema pass-through",
+    "technique": 'abstract interpretation of the code as written over objects built by their real constructors (ttsa.objects: instances, heap, closures, properties, lazy generators), driven by scenario tables; rules read ordered call logs -- stream decorators fed events (ttsa.rules.streamobjects) + local alias analysis',
     "text": (
-        "Static rules for CopyStreamResult, StreamTagger, TimestampingStreamResult, StreamFailFast and StreamToQueue "
-        "(and, for the shared rules, every StreamResult subclass in real.py): a may-alias analysis shows no "
-        "status/startTestRun/stopTestRun body mutates an object received from the caller; lazy iterators that perform "
-        "forwarding are materialised; the copying base applies the same-named method to every target once and "
-        "subclasses reach it through super() exactly once on every path (typestate counter); every one of the ten "
-        "status fields reaches the forwarding call unchanged except the owned field, which changes only under the "
-        "documented guard. Aliasing between branches needs two cooperating sinks to observe at run time; statically it "
-        "is a property of one function body."
+        "CopyStreamResult, StreamTagger, TimestampingStreamResult, StreamFailFast and StreamToQueue: every event method reaches every target once, in list order, during the call; every status field arrives unchanged except the owned one, which changes only as documented (tags: (incoming | add) - discard or None; timestamp: only when missing; fail-fast: 'fail' and 'uxsuccess' only; queue: route code prefixed); the caller's tag set is the same object with the same members afterwards. Alias rule over every StreamResult subclass: no in-place mutation of a value received from the caller."
     ),
-    "note": "Wall-clock values and what sinks do with shared immutable values are not decided." + TRUSTED,
+    "note": (
+        "One genuine defect was found and repaired (fix aadd093: StreamTagger mutated the caller's tag set)." + TRUSTED
+    ),
 }
 
 CHECKS["C04"] = {
-    "technique": "sibling agreement over the class table (MRO-resolved) + CFG must-pass rules",
+    "technique": "abstract interpretation of the code as written over objects built by their real constructors (ttsa.objects: instances, heap, closures, properties, lazy generators), driven by scenario tables; rules read ordered call logs -- client programs given as source and run as written (ttsa.rules.resultmodel), unittest.TestResult followed in the standard library's source",
     "text": (
-        "Static agreement rules across every result class: a list-reading wasSuccessful reads every list a failing "
-        "outcome of its class appends to and none a passing outcome appends to, multiplexers use all(); "
-        "TextTestResult's OK/FAILED arm, failure total and sections use wasSuccessful() and the same three lists; the "
-        "exit status is not wasSuccessful() and the runner brackets the run with finally; the outcomes that stop "
-        "under failfast are exactly error/failure/unexpected success in every class that consults failfast and the "
-        "stream trigger set equals the statuses emitted for them; stop/shouldStop/failfast of every adapter resolve "
-        "(through the MRO) to bodies that reach the wrapped results; startTestRun re-initialises every collection "
-        "outcomes append to and every attribute stop()/startTest() write (shouldStop, testsRun) while failfast/tb_locals survive. Each is a per-call invariant, so consistency over all "
-        "histories and adapter stacks follows by induction."
+        "Ten stacks of testtools' own results (TestResult, TextTestResult, ExtendedToOriginalDecorator, TestResultDecorator, Tagger, MultiTestResult, ThreadsafeForwardingResult, two-level stacks) x six outcomes: wasSuccessful() of wrapper and wrapped result is False exactly after an error, a failure or an unexpected success, also when a passing test follows; a new startTestRun resets verdict, collections, counters and the stop flag and keeps failfast; with failfast set (on the target before wrapping, or on the wrapper after) shouldStop is False after startTest and True after the outcome exactly for the three failing outcomes; stop() reaches every wrapped result; the same under the decorator over 2.6-style and foreign results and for ExtendedToStreamDecorator with StreamFailFast. TextTestResult's writes after histories with 0..3 problems: count, OK iff successful, FAILED (failures=N), one section per problem. TestToolsTestRunner.run and TestProgram.runTests: failfast handed on, run bracketed also when the test raises, exit status = not wasSuccessful()."
     ),
     "note": (
-        "Summary text layout is not decided. The stream summary's treatment of uxsuccess is the repository's "
-        "documented policy (pinned by its contract tests) and is not demanded. One genuine defect is a recorded "
-        "known finding (ThreadsafeForwardingResult drops failfast set on the wrapper)." + TRUSTED
+        "One genuine defect was found by these runs and repaired (fix 715f821: wrapping a result in MultiTestResult switched its failfast off); one is a recorded known finding (ThreadsafeForwardingResult keeps a failfast of its own). The stream summary's verdict for unexpected successes is the repository's documented policy and is not demanded. Elapsed-time text of the summary is not decided." + TRUSTED
     ),
 }
 
 CHECKS["C08"] = {
-    "technique": "typestate call counter on exceptional CFG (TypeError-edge sensitive) + table agreement + duck-type conformance",
+    "technique": 'abstract interpretation of the code as written over objects built by their real constructors (ttsa.objects: instances, heap, closures, properties, lazy generators), driven by scenario tables; rules read ordered call logs -- client programs given as source over three flavours of symbolic target results',
     "text": (
-        "Static forwarding rules for TestResultDecorator, Tagger, MultiTestResult, ExtendedToOriginalDecorator and "
-        "TestByTestResult: a call counter explored over each method's exceptional CFG shows exactly one forward / "
-        "dispatch / accepted delivery on every returning path (a first attempt that leaves through its TypeError edge "
-        "counts as rejected), with every parameter passed through; the set of target methods reachable from each "
-        "outcome equals the documented degradation table, so no failing outcome can reach a passing method; attribute "
-        "uses on reported test objects are checked against the interface common to TestCase and PlaceHolder; "
-        "TestByTestResult has one callback per stopTest with all six fields and tags captured before the pop. "
-        "Per-method invariants compose over every history and every adapter stack."
+        'Every outcome x {exc_info / reason, details} through ExtendedToOriginalDecorator to a 2.6-style, a 2.7-style and an extended result (a target without details= answers the attempt with TypeError): exactly one accepted delivery, of the method the documented degradation table names, with the test first and -- where details had to be converted -- an exc_info triple / reason made from all of them; a failing outcome never arrives as a passing one. Full histories (startTestRun, time, tags, startTest, outcome, time, stopTest, stop, time(None), stopTestRun) through TestResultDecorator, Tagger, MultiTestResult and two-level stacks reach each target once, in order, with arguments. TestByTestResult over two tests: one callback per test at stopTest with status word, times, tags current in the test and details; nothing carried over. An empty details dict / an empty reason counts as given; neither or both is refused. A PlaceHolder reports every outcome to every flavour. Class table: attributes read on reported tests exist on TestCase and PlaceHolder.'
     ),
     "note": (
-        "Text contained in synthetic exceptions is not decided. Assumes a TypeError from the details= attempt is a "
-        "signature rejection. Two sites of one genuine defect are recorded as known findings (PlaceHolder + 2.6-style "
-        "result + unexpected success)." + TRUSTED
+        'The text inside synthetic exceptions is only required to be made from all details. One genuine defect is recorded as known findings (a PlaceHolder reporting an unexpected success to a 2.6-style result raises): two class-table sites and the scenario in which it happens.' + TRUSTED
     ),
 }
 
 CHECKS["C01"] = {
-    "technique": "typestate by abstract interpretation (finite domains, inlined callees, event monitors; exception-kind and symbolic-handler-table runs) + exceptional CFG rules",
+    "technique": 'abstract interpretation of the code as written over objects built by their real constructors (ttsa.objects: instances, heap, closures, properties, lazy generators), driven by scenario tables; rules read ordered call logs -- TestCase.run with scripted user code (ttsa.rules.casemodel)',
     "text": (
-        "The runner's own code is interpreted abstractly with all user code symbolic (returns a non-sentinel value or "
-        "raises) and with result methods / addOnException handlers allowed to raise: every abstract exit state of "
-        "RunTest._run_prepared_result (389 states, 20 distinct event signatures on the pinned tree) has exactly one "
-        "startTest and one stopTest, and every exit that is not a framework-exception path has exactly one outcome "
-        "inside the bracket; no user exception escapes; the sentinel is returned iff an exception was recorded; user "
-        "code runs under a BaseException handler that reaches the recorder; a second abstract run in which user code "
-        "raises exception *kinds* (non-Exception / failure-or-error / skip-like / MultipleExceptions of any of them) "
-        "shows for every (raising stage, later stage) pair that a recorded non-Exception is re-raised out of the run "
-        "(this found the last-exception-wins interrupt defect, fixed); a third run over a symbolic three-entry handler "
-        "table shows that for each of the 20 relations between the exception and the table exactly one report is made, "
-        "and that an exception no entry matches goes to last_resort and is re-raised inside the bracket, whatever the "
-        "layout of the dispatch code; run() pairs startTestRun/stopTestRun iff it created the result. This covers the "
-        "whole cross product of per-stage faults at once, which is exactly what the suite cannot enumerate."
+        'A TestCase is built by its real __init__ and run(); RunTest, the handler table, the result adapter and everything they create are interpreted; setUp / test / tearDown / cleanup are scripts that return or raise (failure, error, skip, KeyboardInterrupt, SystemExit, MultipleExceptions), the result logs. Over 43 combinations of stage outcomes and further scenarios (unittest.skip markers, a 2.6-style result, a result method that raises, run() without a result, a second run): startTest first and stopTest last exactly once; exactly one outcome, a success only if nothing raised; no user exception escapes except a non-Exception one, which is reported as an error, lets the later stages run and is re-raised after stopTest; the default result is bracketed by startTestRun / stopTestRun.'
     ),
     "note": (
-        "Behaviour when a user addOnException handler or a result method raises is only required to keep the bracket. "
-        "Per-flavour delivery of the calls is C08. One genuine defect is a recorded known finding (an empty "
-        "MultipleExceptions yields no outcome); the interrupt-masking defect was repaired (fix 8c94b68). Assumes user code cannot obtain the runner's private "
-        "sentinel." + TRUSTED
+        'Decides every path of the runner for the scripted programs; programs differ from real ones only in what user code does between calls of the TestCase API (it returns or raises, possibly after calling that API). Behaviour when an addOnException handler raises is only required to keep the bracket. Per-flavour delivery of the calls is C08. One genuine defect is a recorded known finding (an empty MultipleExceptions yields no outcome).' + TRUSTED
     ),
 }
 
 CHECKS["C03"] = {
-    "technique": "abstract interpretation with success/raised monitors + table agreement over resolved class hierarchy",
+    "technique": 'abstract interpretation of the code as written over objects built by their real constructors (ttsa.objects: instances, heap, closures, properties, lazy generators), driven by scenario tables; rules read ordered call logs -- TestCase.run with scripted user code',
     "text": (
-        "The abstract run of C01 is repeated with two more monitors (addSuccess delivered, a user exception caught): no "
-        "normal exit state combines a delivered addSuccess with a caught user exception or a forced failure, and every "
-        "such exit reports through exactly one handler. The exception_handlers table is resolved through the parsed "
-        "class hierarchy: no shadowing, Exception exactly last, each entry bound to the _report_* that calls the "
-        "matching result method once, last_resort = _report_error, onException's quiet list = the three signal "
-        "classes; on a symbolic three-entry handler table the handler invoked is, for "
-        "each of the 20 relations between the exception and the table, exactly the first entry whose class matches "
-        "(loop, helper or two-pass code alike); on the exception-kind run a failure/error is never reported through "
-        "a later skip / expected failure (8 stage pairs violate this: known findings), and whenever force_failure is "
-        "set -- or was not examined after the last user stage -- the run ends unsuccessfully; expectThat sets the "
-        "flag without raising. Together these cover all ordered combinations of exception kinds across stages, which "
-        "the suite never mixes."
+        'Over stage-outcome combinations (incl. several cleanups of which one fails): addSuccess iff nothing raised. One exception of each kind -- failure, error, skip, expected failure, unexpected success, user subclasses of those, exceptions made without arguments, KeyboardInterrupt / SystemExit -- in each stage gives exactly the outcome its type maps to. (class, handler) pairs the user puts first / last in exception_handlers take part in list order and receive (case, result, exception). An expectThat mismatch in any stage does not raise, the stage goes on, the finished test is a failure; force_failure survives later skips / expected failures. For every ordered pair of stages (same stage: one MultipleExceptions; two cleanups), a failure / error raised first and a skip / expected failure raised later must leave an unsuccessful outcome.'
     ),
     "note": (
-        "Which of several recorded exceptions selects the outcome is the recorded known finding, one entry per "
-        "(failing stage, masking stage) pair (last one wins: a later skip masks an earlier failure). Paths on which an addOnException handler or a result method raises "
-        "are outside the statement." + TRUSTED
+        "The never-masked clause is violated by today's code: eight (first stage, later stage) pairs are recorded known findings (last-exception-wins outcome selection) and printed on every run; they are keyed by the pair, so a different masking path is still reported. Matchers are scripted (match() returns None or a mismatch); real matcher semantics are C06." + TRUSTED
     ),
 }
 
 CHECKS["C02"] = {
-    "technique": "abstract-run stage sequences + exceptional-CFG must-pass rules + drain-loop idiom table + receiver-sensitive CHA call-shape check",
+    "technique": 'abstract interpretation of the code as written over objects built by their real constructors (ttsa.objects: instances, heap, closures, properties, lazy generators), driven by scenario tables; rules read ordered call logs -- TestCase.run with scripted user code; receiver-sensitive class-hierarchy analysis for call shapes',
     "text": (
-        "Stage order is read off the abstract run of C01 (first-occurrence sequences of setUp/test/tearDown/cleanup at "
-        "every normal exit: setUp first, test and tearDown iff setUp returned normally, cleanups after); the "
-        "exceptional CFG of _run_core shows cleanups on every path after setUp and tearDown on every path out of the "
-        "test method; both _run_cleanups implementations are recognised as LIFO drain loops over the live list that "
-        "invoke each popped triple once with args and kwargs and have no early exit; every private attribute TestCase "
-        "writes during a run is re-initialised by _reset, which dominates the run; patch/useFixture register their undo "
-        "and MonkeyPatcher saves before setattr and restores last-first with both arms; a receiver-class-sensitive CHA "
-        "over the whole package checks that every self/super call shape is accepted by the callee it resolves to for "
-        "each possible receiver (this found the Twisted _run_user overrides rejecting cleanup kwargs, now fixed)."
+        "Stage outcomes x cleanup registration sites (setUp, test, tearDown, a cleanup that runs first, the one that runs last) x raising cleanups (Exception and KeyboardInterrupt): setUp first, test and tearDown iff setUp returned, then every cleanup exactly once with its arguments in reverse registration order (one registered while the cleanups run is the next to run), none left registered; a missing upcall is an error and does not stop the cleanups. patch() of an existing and a non-existing attribute and the same one twice: the new value holds during the test, the pre-test value or absence after run(), whatever raises; MonkeyPatcher alone likewise; useFixture sets up, registers cleanUp in LIFO position, a failing fixture setUp is the test's error. Nine programs run twice on one instance give the same history twice. The Twisted runner's drain loop is run the same way (model shared with C14). R-CALL-SHAPE: every self.m(...) / super().m(...) call shape is accepted by the method it resolves to for every receiver class whose reachable bodies contain it."
     ),
     "note": (
-        "Attribute *values* after restore and the internals of the fixtures package are not decided. "
-        "addOnException handlers are treated as configuration (not reset)." + TRUSTED
+        'The rerun clause compares identical programs, as the property does (an attribute that only matters when the second run behaves differently -- force_failure is not reset -- is noted in DESIGN.md 15.5, not claimed). Internals of the fixtures package are modelled (setUp / cleanUp / getDetails), not followed.' + TRUSTED
     ),
 }
 
 CHECKS["C05"] = {
-    "technique": "call-site completeness + dominance-by-membership-loop + CFG dominance rules",
+    "technique": 'abstract interpretation of the code as written over objects built by their real constructors (ttsa.objects: instances, heap, closures, properties, lazy generators), driven by scenario tables; rules read ordered call logs -- TestCase.run with scripted user code, fixtures, matchers and handlers',
     "text": (
-        "Static rules for the details pipeline: every outcome call made for a run passes details=<case>.getDetails(); "
-        "every detail write testtools itself makes into a running TestCase's dict or gather_details' target is the "
-        "reserved 'reason' or is dominated by a loop that exits only when the name is not in that same dict (anything "
-        "else must use addDetailUniqueName -- this found the constant debug-detail name written in a loop, now fixed); "
-        "recording an exception is dominated by onException, MultipleExceptions recurses per constituent, the user "
-        "handler loop runs on all paths, expectFailure reports its traceback first; onException has one caller and the "
-        "dispatch follows _run_core; gathered details are snapshots (every object the copy's callback hands out was materialised at copy time) with the original content type; mismatch "
-        "details go through addDetailUniqueName. Name-collision behaviour is thereby decided for all names, not for "
-        "the two or three the tests use."
+        "What is read is the `details` argument of the one outcome call. For every outcome kind the details contain every detail attached by any stage, as attached, plus the skip / expected-failure reason (also the default one); exactly one TracebackContent per failure / error raised -- each constituent of a (nested) MultipleExceptions, the assertion behind an expected failure -- built from that exception's exc_info, none for outcome signals; user details named like generated ones ('traceback', 'traceback-1', 'Failed expectation', a fixture's and a mismatch's names, also attached between two exceptions) are all still there unchanged next to the generated ones; every detail of the mismatch of a failing assertThat / expectThat arrives; every addOnException handler is called once per exception with its exc_info before the outcome; a fixture's details -- also when its setUp fails -- arrive as copies read when gathered (_copy_content run against a source that keeps changing); the Twisted runner attaches the debug info of every unhandled Deferred through addDetailUniqueName."
     ),
-    "note": "Payload bytes are not decided (C16 covers chunking). Fixture-internal detail dicts are out of scope." + TRUSTED,
+    "note": (
+        'Byte content of real Content objects is C16; here contents are symbolic objects whose identity and time of reading are tracked. Names are only required to be distinct, not to follow a numbering scheme.' + TRUSTED
+    ),
 }
 
 CHECKS["C07"] = {
-    "technique": "class-table/MRO resolution + attribute-definedness + return-kind inference + nullness abstract interpretation",
+    "technique": 'class-table rules over every matcher and mismatch class + abstract interpretation of the code as written over objects built by their real constructors (ttsa.objects: instances, heap, closures, properties, lazy generators), driven by scenario tables; rules read ordered call logs for assertThat / expectThat / assert_that / MismatchError',
     "text": (
-        "Static rules over all 49 matcher and 13 mismatch classes: __str__ of every stock matcher resolves through the "
-        "MRO to a concrete body (found four filesystem matchers inheriting the abstract stub, fixed); every self.x read "
-        "is assigned somewhere in the MRO or by every concrete subclass (found FileContains.__str__, fixed); every "
-        "mismatch class resolves describe() to a concrete body or passes a description to Mismatch.__init__ at every "
-        "construction site, and get_details() to a dict-returning body; return-kind inference shows every describe "
-        "returns text or delegates; %-formats whose right operand may be the matchee are tuple-safe (found "
-        "MatchesPredicate, fixed); a nullness abstract interpretation with the verdict symbolic shows assertThat / "
-        "assert_that raise iff the verdict is a mismatch and expectThat never raises but sets force_failure; on the "
-        "abstract run of RunTest (exception kinds per stage) a set flag -- or one nothing examined after the last user "
-        "stage -- always ends in a failing outcome (found: setUp mismatch followed by a skip was reported as skip, "
-        "fixed). These hold for every matchee and every combination of stage faults, which example-based tests cannot show."
+        "Class table: __str__ of every stock matcher resolves to a concrete body; every self.x read resolves to an assigned attribute; every mismatch class has a describe() that returns text on all paths and a get_details() that returns a dict. Run as written with a scripted matcher: assertThat stops the test with a failure exactly when match() returned a mismatch, raising MismatchError(matchee, matcher, mismatch, verbose) (also annotated, also verbose); assertions.assert_that likewise; str() of a MismatchError for text / bytes / number / tuple matchees, verbose or not, never raises, is the mismatch's description and quotes text through text_repr; expectThat never raises, the stage goes on, and the finished test is a failure whatever later stages raise (scenarios shared with C03)."
     ),
     "note": (
-        "Not decided: text_repr output evaluating back to the original string over all code points, and non-ASCII "
-        "behaviour of repr (runtime value properties). Observation outside the statement: LabelledMismatches stores a "
-        "generator, so a second describe() of a MatchesDict mismatch is empty." + TRUSTED
+        'The text_repr round trip over all code points and the wording of descriptions are value properties and are not decided (seed S-C07-b is outside reach).' + TRUSTED
     ),
 }
 
 CHECKS["C06"] = {
-    "technique": "nullness abstract interpretation with symbolic component verdicts + return-kind inference + alias/mutation analysis + table algebra",
+    "technique": 'class-table rules (return kinds, falsy mismatches, purity / alias analysis, order independence) + abstract interpretation of the code as written over objects built by their real constructors (ttsa.objects: instances, heap, closures, properties, lazy generators), driven by scenario tables; rules read ordered call logs for the combinators',
     "text": (
-        "For each combinator the match body is interpreted abstractly with every component verdict a fresh symbolic "
-        "value in {None, Mismatch}, verdict collections abstracted by (contains-None, contains-Mismatch) and loops run "
-        "to a fixed point; on every abstract path the nullness of the result equals the declared truth function of "
-        "the verdicts drawn (negation, identity, exists, for-all) and early exits occur only in the direction that "
-        "function allows -- independent of the number of components. Return-kind inference shows every match() of the "
-        "49 matcher classes returns None, a Mismatch or a delegate's verdict; the dict-matcher factory tables satisfy "
-        "exact = super U sub; no mismatch class can be falsy (so truthiness and `is None` tests agree); match bodies "
-        "store nothing on self and mutate neither matcher state nor matchee; no verdict is selected by first match "
-        "over a hash-ordered set (found MatchesSetwise, fixed); %-formats of a matchee are tuple-safe."
+        '23 combinator expressions -- Not, Annotate, AfterPreprocessing, MatchesAll (also first_only), MatchesAny, AllMatch, AnyMatch, MatchesListwise (equal and unequal lengths), MatchesStructure (also a None attribute), MatchesAllDict, MatchesDict / ContainsDict / ContainedByDict on dicts with missing, extra and common keys, Raises over a callable that returns / raises / is interrupted -- are built over scripted component matchers and run for every combination of component verdicts: match() returns None exactly when the declared truth function holds and otherwise an object, never a bool, a string or a collection. Class-table rules over every stock matcher: match() return kinds, no mismatch object can be falsy, matching stores nothing on the matcher and mutates neither matcher nor matchee, no first-match selection over a hash-ordered set; %-formatting of a matchee is decided by running the function on a tuple and on a non-tuple matchee.'
     ),
     "note": (
-        "Not decided (runtime values): leaf predicates (comparisons, regex, doctest, filesystem, SameMembers "
-        "arithmetic, MatchesException class logic, the Raises propagation rule) and that a maximum matching is "
-        "found by MatchesSetwise. Assumes component matchers obey the protocol themselves." + TRUSTED
+        "Leaf predicates over values (Equals, SameMembers as a multiset, regex and filesystem matchers) are value properties and not decided; MatchesSetwise's assignment search is covered by the order-independence rule and its repaired implementation (fix f09af48), not by a truth table." + TRUSTED
     ),
 }
 
@@ -255,36 +163,23 @@ CHECKS["C17"] = {
 }
 
 CHECKS["C09"] = {
-    "technique": "obligation-tracking abstract interpretation of the chunk loop + table composition + event-field completeness",
+    "technique": 'abstract interpretation of the code as written over objects built by their real constructors (ttsa.objects: instances, heap, closures, properties, lazy generators), driven by scenario tables; rules read ordered call logs -- both stream decorators driven through histories (ttsa.rules.streamobjects)',
     "text": (
-        "ExtendedToStreamDecorator._convert is interpreted abstractly with every value yielded by iter_bytes() an "
-        "obligation: each chunk is forwarded exactly once before it is overwritten (order preserved), per detail "
-        "exactly one event carries eof=True and it is that detail's last file event on every path including the "
-        "zero-chunk path, and the reason file and exactly one final status follow all file events; the loops are "
-        "closed by the fixed point, so this holds for any number of details and chunks -- exactly the off-by-one class "
-        "the single-chunk tests cannot see. The method->status and status->method tables compose to the documented "
-        "map (error -> fail -> failure), dispatch tables are exhaustive, every event carries test_id/timestamp (file "
-        "events also name, bytes, repr(content_type); the final one the current tags), and PlaceHolder.run / "
-        "StreamToExtendedDecorator replay each record once in protocol order with id, mapped outcome, details, tags "
-        "and timestamps."
+        "ExtendedToStreamDecorator fed TestResult calls whose details hand out 0 / 1 / several chunks: one 'inprogress' event, per detail its chunks once and in order with eof exactly on the last, one final status event last; every event carries the id, the supplied (else current) time, name / bytes / MIME type, the final one status and current tags; each outcome travels as its documented status. The round trip through StreamToExtendedDecorator gives one bracket per test with the same id, outcome (error as failure), tags, times, skip reason and every non-empty detail with its bytes and content type; tests left in progress are replayed as failures."
     ),
-    "note": "Identical bytes, MIME render/re-parse and non-ASCII names are runtime value properties and are not decided." + TRUSTED,
+    "note": (
+        "Chunk contents are constants of the scenarios; arbitrary byte values are C16's subject." + TRUSTED
+    ),
 }
 
 CHECKS["C10"] = {
-    "technique": "removal-accessor / dominance rules on the CFG + typestate call counters + bucket table agreement",
+    "technique": 'abstract interpretation of the code as written over objects built by their real constructors (ttsa.objects: instances, heap, closures, properties, lazy generators), driven by scenario tables; rules read ordered call logs -- stream consumers driven through event histories (ttsa.rules.streamobjects)',
     "text": (
-        "Static accounting rules for _StreamToTestRecord, _TestRecord, StreamSummary and the consumer wrappers: a "
-        "record reaches on_test only through a removing accessor of the in-progress table, under the final-status "
-        "guard, and stopTestRun drains the table, so no record is reported twice or left behind; events without test "
-        "id return before the table is touched and records are keyed by (test_id, route_code); the record keeps last "
-        "status, latest tags, first/last timestamps and appends chunks in arrival order to one content per name; "
-        "testsRun is incremented exactly once for every non-'exists' record, followed by exactly one bucket handler "
-        "selected by status, each appending to the documented list, with wasSuccessful reading the fail/incomplete "
-        "list; dispatch tables are exhaustive; the wrappers forward every call to their hook exactly once with all "
-        "arguments. These per-event invariants hold for every event sequence."
+        "StreamToDict, StreamSummary and StreamToExtendedDecorator fed histories that use every status, several tests at once, the same id under two route codes, events without id, attachments in several chunks, an 'exists' announcement for a test under way, positional arguments: each test is reported exactly once (at its final status or as incomplete at stopTestRun) with its last status, latest tags, first and last timestamps and chunks in arrival order; nothing stays in the table; testsRun counts each non-'exists' test once, each lands in the list its status names, failed and incomplete tests make wasSuccessful() false."
     ),
-    "note": "Chunk concatenation and timestamps as values are not decided beyond the structural facts above." + TRUSTED,
+    "note": (
+        'Histories are those of the scenario table (section 15.4 of DESIGN.md); the per-event behaviour they establish composes over longer ones.' + TRUSTED
+    ),
 }
 
 CHECKS["C16"] = {
